@@ -179,6 +179,12 @@ def get_atom_lines_from_pdb(
     """
     with open_file_for_reading(pdb_file) as handle:
         lines = handle.readlines()
+    # the selections are tested for every record: materialise them once, a
+    # one-shot iterable would be used up by the first membership tests
+    ignore_residues = tuple(ignore_residues)
+    tags = tuple(tags)
+    if chains is not None:
+        chains = tuple(chains)
     nterm_residue = 'next_residue'
     old_residue = None
     terminal = None
